@@ -6,7 +6,7 @@ import Driver.Util
 mode `array`:  `<len> <ranks> <default> | tok tok …`
   tokens  `s:i:v p:i:v m:i:v x:i:v d:i:v a:i:v o:i:v e:i:v A:i:v O:i:v +:i -:i v:i:k`  updates (in execution order)
           `C` copy array 0 into array 1   `T:n` select target   `F` dump (index:value per rank)   `V` dump values
-          `Z:len[:fill]` resize
+          `Z:len[:fill]` resize   `E:form:fam:c:salt:k` for_all with the emitting callback `harnessCallback`
   answer  dumps joined by ` # `; a dump = ranks joined by `|`; `trap` as soon as an update fails.
 
 mode `bag`:    `<ranks> | tok tok …`
@@ -75,6 +75,16 @@ def arrayTok (s : AState) (tok : String) : AState :=
   | ["V"] => match s.target with
     | some a => { s with outs := s.outs ++ [dumpVals a] }
     | none => { s with trapped := true }
+  | ["E", _, fam, c, salt, k] =>
+    let mk? : Option (UInt64 → Op) := match fam with
+      | "p" => some Op.plus | "x" => some Op.mult | "a" => some Op.band | "o" => some Op.bor | "e" => some Op.bxor
+      | _ => none
+    match mk?, c.toNat?, salt.toNat?, k.toNat?, s.target with
+    | some mk, some c, some salt, some k, some a =>
+      match run a (forAllMsgs a (harnessCallback a.len mk c salt k)) with
+      | some a' => s.put a'
+      | none => { s with trapped := true, outs := s.outs ++ ["trap"] }
+    | _, _, _, _, _ => { s with trapped := true, outs := s.outs ++ ["bad-op"] }
   | "Z" :: n :: rest => match n.toNat?, s.target with
     | some n, some a => s.put (resize a n (match rest.head?.bind (·.toNat?) with | some f => u64 f | none => a.dv))
     | _, _ => { s with trapped := true, outs := s.outs ++ ["bad-op"] }
